@@ -281,6 +281,20 @@ PROPS = {
         real_vs_stub=L_REAL,
         assumptions=SIM_ASSUME,
     ),
+    "C34": dict(
+        pkg="cmd/restic", test="TestVerifC34", level="fault_enumeration", quick_s=60, thorough_s=900,
+        text="generated repositories; one or two packs are damaged at rest (a bit flipped inside a blob, truncation at a generated position, "
+             "damage inside the header or its length field); the real `repair packs <ids>` runs under the seeded scheduler, in a quarter of the runs "
+             "crashed at a sampled mutation and re-run after `repair index`; a monitor inside the store, at the instant a damaged pack is removed, "
+             "requires every blob that the independent decoder could still read from the damaged packs to be available from another uploaded and "
+             "indexed pack; afterwards `repair snapshots --forget` runs, the real `check --read-data` must pass, and every file whose blobs and "
+             "directories are all still available has an unchanged content list in the repaired snapshot",
+        note="corruption sites are sampled (stratified by kind), not enumerated; the file comparison uses the decoder's view of the trees",
+        design_ref="3 / C34",
+        rule="one run = configuration x generated repository x 1-2 damaged packs x (crash point); distinct = distinct (case, event-log hash)",
+        real_vs_stub=L_REAL,
+        assumptions=SIM_ASSUME,
+    ),
     "C35": dict(
         pkg="internal/backend/retry", test="TestVerifC35", level="fault_enumeration", quick_s=30, thorough_s=600,
         text="the real retry backend with its real back-off on the simulated clock (15-minute budget, both settings of the backend-error-redesign "
